@@ -293,6 +293,92 @@ Section Classes.
     end.
 End Classes.
 
+(* ------------------------------------------------------------------ simple sufficient conditions for `layout_good`
+   (decidable predicates on the layout and the token list) *)
+Definition is_op_tok (v : string) (t : token) : bool := tkind_eqb (tkind_of t) TkOperator && String.eqb (tval t) v.
+
+(* every run is white space; the runs BETWEEN two tokens are non-empty (the run in front of the first token
+   and the run at the end of the text may be empty).  `i` is the index of the first token of `toks`,
+   whose last element is the EOF token *)
+Fixpoint gaps_ok (L : layout) (i : nat) (toks : list token) : bool :=
+  match toks with
+  | [] => true
+  | _ :: r =>
+      forallb ascii_ws (gap L i) && (Nat.eqb i 0 || is_nil r || negb (is_nil (gap L i))) && gaps_ok L (S i) r
+  end.
+
+(* the run inside every `not in` is a non-empty white-space run *)
+Fixpoint notin_white (L : layout) (i : nat) (toks : list token) : bool :=
+  match toks with
+  | [] => true
+  | t :: r =>
+      (if is_op_tok "not in" t then forallb ascii_ws (inner L i) && negb (is_nil (inner L i)) else true) &&
+      notin_white L (S i) r
+  end.
+
+(* THE CARVE-OUT (known finding C11-notin-spacing): inside `not in` only U+0020, and U+0020 (or the end of
+   the text) directly after it *)
+Fixpoint notin_spaced (L : layout) (i : nat) (toks : list token) : bool :=
+  match toks with
+  | [] => true
+  | t :: r =>
+      (if is_op_tok "not in" t
+       then forallb (fun c => c =? 32) (inner L i) && negb (is_nil (inner L i)) && hd_okb (fun c => c =? 32) (gap L (S i))
+       else true) &&
+      notin_spaced L (S i) r
+  end.
+
+(* the operator token `not` is never directly followed by the operator token `in` (the text `not in` IS the
+   operator "not in"; the printer never emits that pair: an operand follows a unary operator) *)
+Fixpoint not_in_free (toks : list token) : bool :=
+  match toks with
+  | [] => true
+  | t :: r =>
+      (if is_op_tok "not" t then match r with t2 :: _ => negb (is_op_tok "in" t2) | [] => true end else true) &&
+      not_in_free r
+  end.
+
+(* ------------------------------------------------------------------ trees whose printed tokens all have a spelling
+   (decidable, independent of the parentheses and of the layout): identifiers, names of properties, methods,
+   functions and builtins are identifiers of the lexer; the spellings the formatters give to the numbers are
+   number literals; strings are valid UTF-8; operators are operators of the lexer, and no unary operator is
+   spelled `in` *)
+Section TreeText.
+  Variables uni_letter uni_digit uni_space : Z -> bool.
+  Variable fmt_int : Z -> string.
+  Variable fmt_float : float -> string.
+
+  Definition spellable (k : tkind) (v : string) : bool :=
+    match pre_spell uni_letter uni_digit uni_space (mkTok noloc k v) with Some _ => true | None => false end.
+
+  Fixpoint tree_textable (t : expr) : bool :=
+    let fix all (l : list expr) : bool := match l with [] => true | x :: r => tree_textable x && all r end in
+    let opt := fun (x : option expr) => match x with Some y => tree_textable y | None => true end in
+    match t with
+    | ENil _ | EBool _ _ | EPointer _ => true
+    | EIdent _ n _ => spellable TkIdentifier n
+    | EInt _ z => spellable TkNumber (fmt_int z)
+    | EFloat _ x => spellable TkNumber (fmt_float x)
+    | EStr _ s => spellable TkString s
+    | EConst _ _ => false
+    | EUnary _ u e =>
+        spellable TkOperator (string_of_unop u) && negb (String.eqb (string_of_unop u) "in") && tree_textable e
+    | EBinary _ b l r => spellable TkOperator (string_of_binop b) && tree_textable l && tree_textable r
+    | EMatches _ _ l r => tree_textable l && tree_textable r
+    | EProperty _ e n _ => spellable TkIdentifier n && tree_textable e
+    | EIndex _ e i => tree_textable e && tree_textable i
+    | ESlice _ e from to => tree_textable e && opt from && opt to
+    | EMethod _ e n args _ => spellable TkIdentifier n && tree_textable e && all args
+    | EFunction _ n args _ => spellable TkIdentifier n && all args
+    | EBuiltin _ b args => spellable TkIdentifier (string_of_builtin b) && all args
+    | EClosure _ e => tree_textable e
+    | ECond _ c x y => tree_textable c && tree_textable x && tree_textable y
+    | EArray _ es => all es
+    | EMap _ ps => all ps
+    | EPair _ k v => tree_textable k && tree_textable v
+    end.
+End TreeText.
+
 (* ------------------------------------------------------------------ forgetting locations *)
 Definition erase_ann_loc (a : ann) : ann := mkAnn noloc (akind a).
 
